@@ -257,6 +257,13 @@ func (bqp *binaryQuantizedPoint) Id() uint64 {
 }
 
 func (bqp *binaryQuantizedPoint) IdFromKey(key []byte) (uint64, bool) {
+	// Once the threshold is known a point is only stored under its quantised
+	// key (see WriteTo), before that under the full vector key. Scans must
+	// recognise both, otherwise quantised points are invisible to ForEach
+	// and Count when they are not already in the cache.
+	if id, ok := conversion.NodeIdFromKey(key, 'q'); ok {
+		return id, true
+	}
 	return conversion.NodeIdFromKey(key, 'v')
 }
 
